@@ -18,3 +18,27 @@ for base, lev in (("RK45CK", 3), ("RK45CK", 4), ("DOPRI45", 4), ("RK4", 3)):
 bad = {k: v for k, v in worst.items() if v > 1e-6}       # 100 x the tolerance; the amplification of the oscillator is 1
 assert not bad, "global error far above the tolerance 1e-8: %r" % (bad,)
 print("ok", max(worst.values()))
+
+# Since repair 40 wrapped embedded pairs no longer shorten steps on their own, so the runs above no longer exercise the adoption of a
+# shortened step.  What still shortens is a basis integrator whose stage solve fails (implicit methods); the same situation, made
+# deterministic: a basis integrator that hands back 3/4 of the first step it is asked for, on y' = c, with tolerances that accept anything.
+# Every level's increment is c x (the span it integrated): the returned increment equals c x (the returned step) iff all levels integrated
+# the step that is reported.
+for base, lev in (("RK4", 3), ("Midpoint", 2)):
+    for h in (0.5, -0.5, 2.0, -2.0):
+        cls0 = de.available_methods(False)[base]
+        armed = [True]
+
+        class Shortening(cls0):
+            def __call__(self, rhs_, t, y, c, dt):
+                if armed[0]:
+                    armed[0] = False
+                    return super().__call__(rhs_, t, y, c, dt * np.float64(0.75))
+                return super().__call__(rhs_, t, y, c, dt)
+        Shortening.__name__ = cls0.__name__
+        w = generate_richardson_integrator(Shortening, richardson_iter=lev)((2,), dtype=np.float64, rtol=1e30, atol=1e30)
+        cvec = np.array([3.0, -0.5])
+        r = w(de.DiffRHS(lambda t, y: cvec + 0.0 * y), np.float64(1.0), np.array([0.25, 2.0]), {}, np.float64(h))
+        dT, dY = r[1]
+        assert abs(float(dT) - 0.75 * h) < 1e-15 and np.max(np.abs(dY - cvec * dT)) < 1e-13, (base, lev, h, float(dT), dY, cvec * dT)
+print("ok (shortening basis)")
